@@ -14,7 +14,7 @@
    (0 or > n), ends of reads; all within 60 s of packet 1 (C14 covers what happens later). *)
 From JT.Base Require Import Prelude.
 From JT.Model Require Import Frame Unpack Subpkg.
-From JT.Proofs Require Import Subpkg_proofs Subpkg_final.
+From JT.Proofs Require Import Unpack_proofs Subpkg_proofs Subpkg_final Subpkg_seg.
 
 (* exactly one complete message for X, its body the concatenation of the bodies in package-number
    order, delivered by the very event that brings the last missing number (position length l1 in
@@ -67,6 +67,25 @@ Proof. exact wf_nil. Qed.
 Theorem C05_wf_reachable : forall s evs, wf s -> wf (fst (run s evs)).
 Proof. exact wf_run_f. Qed.
 Print Assumptions C05_wf_reachable.
+
+(* composition with the stream splitter (C04): however the byte stream of valid frames fs is cut
+   into reads (any number, size and position of cuts, empty reads included), parse - unpack, the
+   completePack loop and the housekeeping pass of every read, all at one instant now - delivers over
+   all reads exactly what processing the frames' messages one by one delivers, and no read returns
+   an error.  (Reads spread over time: the housekeeping only adds 0x8003 messages / drops transfers,
+   which is C14's subject.) *)
+Theorem C05_segmentation : forall fs chunks now, Forall vframe fs -> concat chunks = concat fs ->
+  feed_all now pst0 chunks = (snd (cp_loop now [] (map decode_ok fs)), repeat None (length chunks)).
+Proof. exact segmentation_subpkg. Qed.
+Print Assumptions C05_segmentation.
+
+(* ... and what that loop delivers as complete is what the message-level machine of the theorems
+   above completes (same state afterwards): C05_exact / C05_never_early speak about parse *)
+Theorem C05_parse_is_run : forall now ms s,
+  fst (cp_loop now s ms) = fst (run s (map (fun rm => (now, EvMsg (snd rm))) ms)) /\
+  completed_msgs (snd (cp_loop now s ms)) = completed_outs (snd (run s (map (fun rm => (now, EvMsg (snd rm))) ms))).
+Proof. exact cp_loop_is_run. Qed.
+Print Assumptions C05_parse_is_run.
 
 (* non-vacuity: id 0x0801, three packets, arrival 1,3,(heartbeat),(end of read),3,(number 0),
    (number 4),(packet 2 of another id),2,3 - delivered once, at the packet numbered 2 *)
